@@ -84,7 +84,7 @@ def gen_cases(rng, tier):
   i = 0
   while len(out) < n:
     i += 1
-    L = lg.gen_leaf(rng, cls=CLASSES[i % len(CLASSES)])
+    L = lg.gen_leaf(rng, cls=CLASSES[i % len(CLASSES)], variant=i // len(CLASSES))
     if tier == 'search' and i % 2 == 0:
       L = adversarial(rng, L)
       try:
